@@ -22,7 +22,9 @@ RULE = (
     "callback and records the calls in flight. Engine DET (vlib/det.py) runs the real code with line-level yield points "
     "('full': every reactivex line; 'focus': the operator's own files + autodetachobserver.py + internal/concurrency.py "
     "+ every lock operation + probe yields). enum-k1: every schedule with <=1 preemption for all 2-source programs over "
-    "{C,NC,NE,NNC} per operator form (focus) and over {NC,NE} (full); enum-k2: every schedule with <=2 preemptions "
+    "{C,NC,NE,NNC} (+3 three-source programs) per plain operator form, over {C,NC,NE} x outer {IIE pre 2, IIC pre 0} for "
+    "merge_all/merge(max_concurrent=1|2), 4 timed programs per window operator (focus), and over {NC,NE} for every form "
+    "(full); thorough: full alphabets {C,E,NC,NE,NNC}, all four outer variants, 10 timed programs; enum-k2: every schedule with <=2 preemptions "
     "(focus) for zip/combine_latest/with_latest_from/amb on NNC|NNC and NNE|NNC (thorough: all forms over {NC,NE,NNC,NNE}); gen: generated programs "
     "with a drawn descent of <=3 effective preemptions, every prefix schedule judged too. Oracle, every run, every probe: "
     "no callback starts while a callback of ANOTHER thread is in flight on the same probe (same-thread re-entrancy is not "
@@ -38,7 +40,7 @@ ASSUMPTIONS = [
     "the outer sequence of merge_all/flat_map/merge(max_concurrent) counts as one of the operator's sources",
     "subscription happens before the run (window operators: at the start of the source thread, because subscribing starts a timer thread)",
     "CPython GIL-build atomicity: a source line is the unit of interleaving; locks/timers/threads are the cooperative replacements of vlib/det.py",
-    "bounds: <=3 sources, <=3 elements per source, <=1 (quick) / <=2 (thorough) preemptions exhaustive, <=3 drawn",
+    "bounds: <=3 sources, <=3 elements per source, exhaustive <=1 preemption everywhere and <=2 on the listed programs, <=3 drawn",
     "lost or misrouted values (e.g. an inner source left in merge(max_concurrent)'s queue) are outside this property's statement and not judged",
 ]
 TIMEOUT = {"quick": 300, "thorough": 3600}
